@@ -71,19 +71,19 @@ OtherType(t) == Normal([ExactTCP EXCEPT !.dl_type = t])
 Proto(p) == Normal([ExactTCP EXCEPT !.nw_proto = p])
 BitsQ == {0, 1, 8, 24, 31, 32}
 BitsT == {0, 1, 7, 8, 9, 15, 16, 17, 23, 24, 25, 31, 32}
-MFlags1 == {WildSet(ExactTCP, W) : W \in {X \in SUBSET FlagFields : Cardinality(X) <= 1}}
-MFlags2 == {WildSet(ExactTCP, W) : W \in {X \in SUBSET FlagFields : Cardinality(X) <= 2}}
-MFlagsAll == {WildSet(ExactTCP, W) : W \in SUBSET FlagFields}
+MFlags1(lazy) == {WildSet(ExactTCP, W) : W \in {X \in SUBSET FlagFields : Cardinality(X) <= 1}}
+MFlags2(lazy) == {WildSet(ExactTCP, W) : W \in {X \in SUBSET FlagFields : Cardinality(X) <= 2}}
+MFlagsAll(lazy) == {WildSet(ExactTCP, W) : W \in SUBSET FlagFields}
 MBits(B) == {WithBits(ExactTCP, sb, db) : sb \in B, db \in B}
              \cup {WithBits(ARP, sb, db) : sb \in B, db \in {0, 32}}
-MTypes == {ExactTCP, ARP, Wild, OtherType(<<136, 204>>), OtherType(<<134, 221>>), OtherType(<<5, 255>>),
+MTypes(lazy) == {ExactTCP, ARP, Wild, OtherType(<<136, 204>>), OtherType(<<134, 221>>), OtherType(<<5, 255>>),
            OtherType(<<0, 0>>), Proto(<<17>>), Proto(<<1>>), Proto(<<47>>), Proto(<<132>>), Proto(<<0>>),
            WildSet(ARP, {"nw_proto"}), WildSet(ARP, {"dl_src", "in_port"}),
            Normal([Wild EXCEPT !.dl_type = IPType]), Normal([Wild EXCEPT !.dl_type = ARPType]),
            Normal([Wild EXCEPT !.dl_type = IPType, !.nw_proto = <<6>>, !.tp_dst = <<0, 22>>]),
            Normal([Wild EXCEPT !.nw_src = <<10, 0, 0, 0>>, !.nw_src_bits = <<8>>]),    \* prerequisite unmet: wildcarded
            Normal([Wild EXCEPT !.dl_type = IPType, !.nw_src = <<10, 0, 0, 0>>, !.nw_src_bits = <<8>>])}
-MVals == {Normal([ExactTCP EXCEPT ![n] = Pat(c, MatchW[n], 3)]) :
+MVals(lazy) == {Normal([ExactTCP EXCEPT ![n] = Pat(c, MatchW[n], 3)]) :
             n \in {MatchFields[i] : i \in 1..12}, c \in Classes}
 Matches(S) == {SV("match", v) : v \in S}
 
@@ -117,6 +117,7 @@ DefShape(k) ==
 BaseShape(k) == IF k \in {"packet_in", "packet_out"} THEN [DefShape(k) EXCEPT !.n = 0] ELSE DefShape(k)
 
 OFMsgKinds == MsgKinds \ (DOMAIN NXMsgLayout)
+StatsKinds == {k \in OFMsgKinds : Layout[k][2].c \in {<<16>>, <<17>>}}
 TopKindsOF == OFMsgKinds \cup {"match", "phy_port", "actions", "props"}
 
 C(tag, m) == [tag |-> tag, msg |-> m, mods |-> <<>>]
@@ -154,7 +155,7 @@ Deviations(K) ==
               {C(k \o "/dev/" \o PathTag(p) \o "/" \o c, Put(b, p, "set", DevValue(b, p, c))) :
                  p \in ScalarPaths(b), c \in DevClasses} : k \in K})
 \* two top-level fields at once
-TopScalars(k) == {Layout[k][i].n : i \in {j \in 1..Len(Layout[k]) : Layout[k][j].t = "u"}}
+TopScalars(k) == IF k \in Special THEN {} ELSE {Layout[k][i].n : i \in {j \in 1..Len(Layout[k]) : Layout[k][j].t = "u"}}
 Pairs(K) ==
   Good(UNION {LET b == Build("Z", BaseShape(k)) IN
               {C(k \o "/pair/" \o xy[1] \o "+" \o xy[2],
@@ -163,7 +164,7 @@ Pairs(K) ==
                  xy \in {p \in TopScalars(k) \X TopScalars(k) : p[1] # p[2]}} : k \in K})
 
 \* output actions: max_len matters only towards the controller
-Outputs ==
+Outputs(lazy) ==
   Good({C("actions/output/" \o c, SV("actions", [actions |-> <<SV("a_output", [port |-> CtrlPort, max_len |-> Pat(c, 2, 1)])>>])) :
           c \in Classes}
        \cup {C("flow_mod/output/" \o c,
@@ -229,7 +230,7 @@ Mod(tag, m, mods) == [tag |-> tag, msg |-> m, mods |-> mods]
 SetF(f, v) == [path |-> <<Step(f, 0)>>, op |-> "set", v |-> v]
 App(f, v) == [path |-> <<Step(f, 0)>>, op |-> "append", v |-> v]
 OneAct == Build("P", ASh("a_set_dl_dst"))
-Modified ==
+Modified(lazy) ==
   LET fm == Build("P", DefShape("flow_mod"))
       po == Build("M", DefShape("packet_out"))
       fr == Build("P", DefShape("features_reply"))
@@ -281,7 +282,7 @@ MaskPat(c, w) ==
     [] c = "N" -> [i \in 1..w |-> IF i = 1 THEN 128 ELSE 0]
     [] c = "T" -> [i \in 1..w |-> 15]
     [] c = "0" -> Zeros(w)
-NxmEntries ==
+NxmEntries(lazy) ==
   {Nxm(t, Pat(c, t[3], 2), <<>>) : t \in NxmFields, c \in {"Z", "M", "S", "P"}}
   \cup {Nxm(t, AndBytes(Pat(c, t[3], 2), MaskPat(m, t[3])), MaskPat(m, t[3])) :
           t \in {x \in NxmFields : <<x[1], x[2]>> \in NxmMaskable}, c \in {"M", "P"}, m \in {"H", "L", "N", "T", "0"}}
@@ -335,9 +336,9 @@ NXDeviations(K) ==
               {C(k \o "/dev/" \o PathTag(p) \o "/" \o c, FixNX(Put(b, p, "set", DevValue(b, p, c)))) :
                  p \in ScalarPaths(b), c \in DevClasses} : k \in K})
 \* every NXM field, alone in a match, with and without mask
-NXEntries == Good({C("nxmatch/entry", SV("nxmatch", [match |-> <<e>>])) : e \in NxmEntries})
+NXEntries(lazy) == Good({C("nxmatch/entry", SV("nxmatch", [match |-> <<e>>])) : e \in NxmEntries(0)})
 \* every NXM field as the register operand of the register actions
-NXRegs ==
+NXRegs(lazy) ==
   Good({C("nxa_reg_load/dst", [FixNX(Build("P", S0("nxa_reg_load"))) EXCEPT !.f.dst = NxHdr(t)]) : t \in NxmFields}
        \cup {C("nxa_reg_move/src+dst", [FixNX(Build("P", S0("nxa_reg_move"))) EXCEPT !.f.src = NxHdr(t), !.f.dst = NxHdr(t)]) :
                t \in NxmFields}
@@ -362,13 +363,13 @@ NXPairs(K) ==
                  FixNX(Put(Put(b, <<Step(xy[1], 0)>>, "set", DevValue(b, <<Step(xy[1], 0)>>, "P")),
                            <<Step(xy[2], 0)>>, "set", DevValue(b, <<Step(xy[2], 0)>>, "M")))) :
                  xy \in {p \in TopScalars(k) \X TopScalars(k) : p[1] # p[2]}} : k \in K})
-NXEntriesT ==
+NXEntriesT(lazy) ==
   Good({C("nxmatch/entry", SV("nxmatch", [match |-> <<e>>])) : e \in
           {Nxm(t, Pat(c, t[3], 5), <<>>) : t \in NxmFields, c \in Classes}
           \cup {Nxm(t, AndBytes(Pat(c, t[3], 5), MaskPat(m, t[3])), MaskPat(m, t[3])) :
                   t \in {x \in NxmFields : <<x[1], x[2]>> \in NxmMaskable}, c \in {"M", "S", "Q", "P"},
                   m \in {"H", "L", "N", "T", "0"}}})
-NXModified ==
+NXModified(lazy) ==
   LET fm == Build("P", DefShapeNX("nx_flow_mod"))
       le == Build("P", DefShapeNX("nxa_learn"))
   IN Good({
@@ -380,6 +381,9 @@ NXModified ==
     Mod("nx_role_request/mod/role", Build("Z", S0("nx_role_request")), <<SetF("role", <<0, 0, 0, 2>>)>>),
     Mod("nxa_set_tunnel/mod/tun_id", Build("Z", S0("nxa_set_tunnel")), <<SetF("tun_id", <<0, 0, 0, 2>>)>>) })
 
+(* (lazy): TLC evaluates every zero-arity constant definition of the modules   *)
+(* it loads when it starts; the dummy parameter keeps the big families from    *)
+(* being built in runs that do not use them.                                   *)
 (* The alphabets of the TLC runs are defined in the MC_<run>.tla modules      *)
 (* (generated by harness/c01_gencfg.py): TLC evaluates every constant         *)
 (* definition of the modules it loads, so each run loads only its own family. *)
